@@ -39,7 +39,7 @@ def positive_control():
     rules(fctx, frep, ["fx.m.entry"], floors=False)
     got = {f.construct for f in frep.findings()}
     want = {"fx.m.appends_module_list", "fx.m.fills_module_memo", "fx.m.mutable_default", "fx.m.reads_environment",
-            "fx.m.iterates_a_set", "fx.m.cached_returns_list", "fx.m.Holder.__init__"}
+            "fx.m.iterates_a_set", "fx.m.cached_returns_list", "fx.m.Holder.__init__", "fx.m.extends_alias_in_place"}
     missing = want - got
     if missing:
         raise AnalysisError(f"purity positive controls silent for {sorted(missing)}: the effect rules no longer fire")
@@ -53,10 +53,26 @@ def run(ctx, rep):
         "classified by the root of its target (fresh allocation of this call, parameter -- resolved through all call sites --, self "
         "during construction, module/class-level object, unknown); memoised functions and cached properties must be pure with "
         "immutable results; no mutable defaults; no ambient reads, no hash(), no iteration over unordered sets on the parse path; "
-        "import-time effects limited to logging.basicConfig().  Positive controls (a fixture package with seven seeded impurities) "
+        "import-time effects limited to logging.basicConfig().  Positive controls (a fixture package with eight seeded impurities) "
         "must fire on every run.")
     rep.trusted += ["functools.lru_cache / cached_property are thread-safe memo tables keyed by all arguments / the instance"]
     n = positive_control()
     rules(ctx, rep, ENTRY)
     rc = rep.rule("controls", "positive controls on the fixture package were all reported", floor=1)
     rc.inst(f"{n} seeded impurities reported in sa/fixtures/purity")
+    # "observably identical": the rendering of a parsed chart must not contain anything history-dependent either
+    from .C19 import reachable_classes
+    rr = rep.rule("W9.render", "every class whose instances a parsed Chart contains renders by value: __repr__ is dataclass-generated, "
+                               "defined in the package or an enum's -- never object.__repr__, which prints the memory address (different "
+                               "in every parse, thread and process)", floor=10)
+    for q, c in sorted(reachable_classes(ctx, "chartparse.chart.Chart").items()):
+        if c.is_enum():
+            rr.inst(f"{q}: enum rendering")
+            continue
+        kind, who = c.effective_special("__repr__")
+        rr.inst(f"{q}: __repr__ from {kind} {getattr(who, 'qual', '') or ''}")
+        if kind == "object":
+            rr.fail(q, f"{q} is reachable from a parsed Chart but has no value-based __repr__ (repr=False without a repr mixin, or a plain class): "
+                       f"repr() of the chart contains the object's address and differs between two parses of the same text",
+                    file=c.module.path, line=c.node.lineno, stmt=f"class {c.name}")
+
